@@ -124,7 +124,7 @@ def rand_key(rng, known):
 
 
 SM_KEYS = ["TITLE", "SUBTITLE", "ARTIST", "BANNER", "OFFSET", "BPMS", "STOPS", "ATTACKS", "DISPLAYBPM", "BGCHANGES", "FREEZES", "ANIMATIONS", "CREDIT", "MUSIC", "SELECTABLE"]
-SM_EDIT_KEYS = SM_KEYS + ["VERSION", "VERSION"]      # an SM simfile may carry a VERSION property too
+SM_EDIT_KEYS = SM_KEYS + ["VERSION", "VERSION", "NOTES2", "NOTEDATA2", "NOTE"]      # an SM simfile may carry a VERSION property too
 SSC_KEYS = SM_KEYS + ["VERSION", "WARPS", "DELAYS", "LABELS", "ORIGIN", "JACKET", "COMBOS"]
 CHART_KEYS = ["CHARTNAME", "STEPSTYPE", "DESCRIPTION", "CHARTSTYLE", "DIFFICULTY", "METER", "RADARVALUES", "CREDIT", "BPMS", "OFFSET", "DISPLAYBPM", "ATTACKS", "MUSIC", "STOPS", "WARPS"]
 
@@ -312,7 +312,7 @@ def rand_msd_text(rng, ssc=None):
     if rng.random() < 0.15:
         parts.append("﻿")
     if ssc and rng.random() < 0.7:
-        parts.append(rng.choice(["#VERSION:0.83;", "#version:0.7;", "#VERSION;"]))
+        parts.append(rng.choice(["#VERSION:0.83;", "#version:0.7;", "#VERSION;", "#VERSION:0.83;", "# Version:0.83;", "#VERSION \n:0.83;", "#VERSION\n", "#\tVERSION:0.7;"]))      # only the exact key VERSION (any case) says SSC
     for _ in range(rng.randrange(0, 9)):
         r = rng.random()
         if r < 0.12:
